@@ -2,6 +2,8 @@
 """tools/seedrun.py [ids...] -- for every seeded change: does it still apply to /repo HEAD, and which
 registered checks report a VIOLATION for it? Updates seeded/<id>/meta.json (detected_by)."""
 import json, os, subprocess, sys, re
+FIRST = "--first" in sys.argv
+if FIRST: sys.argv.remove("--first")
 ids = sys.argv[1:] or sorted(d for d in os.listdir('/verif/seeded') if not d.startswith('_'))
 # checks to try per property (first the property's own check, then related ones)
 RELATED = {"C01":["C01","C07"],"C02":["C02","C06","C04","C07"],"C03":["C03","C15"],"C04":["C04","C10"],"C05":["C05","C07","C14"],"C06":["C06","C07"],"C07":["C07","C06","C10"],
@@ -35,6 +37,7 @@ for sid in ids:
             sh(f"rm -f /verif/replays/{chk}-*.json")
             if rc == 1 and viol:
                 det.append({"check": chk, "tier": "quick", "first_message": msg})
+                if FIRST: break
             elif rc == 2:
                 inc.append(chk)
     finally:
